@@ -100,9 +100,10 @@ def check(run: Run) -> None:
         ("T2", "curvilinear dot_vectors / scale_vector equal the Cartesian operation on the transformed components"),
         ("T3", "cylindrical <-> spherical is refused: no table entry, fall-through raises ValueError"),
         ("T4", "fields refuse each (point class, system kind) mismatch before evaluating the field function"),
-        ("T5", "Vector.rebase / ScalarField.rebase substitute all three base scalars, in opposite directions"),
+        ("T5", "Vector.rebase / ScalarField.rebase hand sympy the transformation with all three base scalars replaced at once, in opposite directions"),
         ("T6", "scale factors and orientation used by C12 follow from the transformation table"),
-        ("T7", "expression-backed fields substitute every base scalar by the point's coordinate accessor (missing coordinates count as zero)"),
+        ("T7", "evaluating an expression-backed field at a point replaces every base scalar by the point's coordinate (0 for a missing one)"),
+        ("T8", "... simultaneously: coordinates that mention the system's own base scalars (trajectories such as [y, x + 5]) are not substituted again"),
     ]:
         run.rule(rid, text)
     mod, fn, tables, nodes = read_tables(run)
@@ -237,43 +238,208 @@ def check(run: Run) -> None:
                 for n, c in evals:
                     if not f.cfg.dominated_by(n, lambda y, t=tests[pc][1]: y is t):
                         run.violate("T4", f"{modname}:{path}:{pc}:bypass", f.mod, c, f"the field function can be evaluated without the {pc} / {kind.lower()} check")
-    # ---- T5
-    for modname, path, receiver, argument in (
-            ("symplyphysics.core.vectors.vectors", "Vector.rebase", "self.coordinate_system", "coordinate_system"),
-            ("symplyphysics.core.fields.scalar_field", "ScalarField.rebase", "coordinate_system", "self.coordinate_system")):
-        f = Fn(w, modname, path)
-        run.ob("T5", f"{path}:direction")
-        tcalls = [c for n in f.cfg.stmt_nodes() for c in node_calls(n) if isinstance(c.func, ast.Attribute) and c.func.attr == "transformation_to_system"]
-        if len(tcalls) != 1 or dotted(tcalls[0].func.value) != receiver or [dotted(a) for a in tcalls[0].args] != [f"{argument}.coord_system_type"]:
-            run.violate("T5", f"{modname}:{path}:direction", f.mod, f.fn,
-                        f"{path} must use {receiver}.transformation_to_system({argument}.coord_system_type); found {[norm(c, 70) for c in tcalls]}")
-        run.ob("T5", f"{path}:all-scalars")
-        ok = False
-        for lp in [n for n in f.cfg.stmt_nodes() if n.kind == "for"]:
-            it = lp.ast.iter
-            sl = f.slice(lp, it)
-            if any(c.endswith("base_scalars") for c in sl.calls) and not has_subscript([it]) and (dotted(it.args[0].func.value if isinstance(it, ast.Call) and it.args and isinstance(it.args[0], ast.Call) and isinstance(it.args[0].func, ast.Attribute) else it) or "").startswith("self."):
-                subs = [c for s in lp.ast.body for c in ast.walk(s) if isinstance(c, ast.Call) and isinstance(c.func, ast.Attribute) and c.func.attr == "subs"]
-                tnames = {x.id for x in ast.walk(lp.ast.target) if isinstance(x, ast.Name)}
-                if subs and all(isinstance(c.args[0], ast.Name) and c.args[0].id in tnames for c in subs) and all(conditions_for(f.fn, stmt_of(f.fn, c), stop=lp.ast) in ([], [("loop", x) for x in []]) or
-                                                                                                                   all(isinstance(t, str) for t, _ in (conditions_for(f.fn, stmt_of(f.fn, c), stop=lp.ast) or [])) for c in subs) \
-                        and not any(isinstance(x, (ast.Break, ast.Return, ast.Continue)) for s in lp.ast.body for x in ast.walk(s)):
-                    ok = True
+    # ---- T5 / T7 / T8: the substitution steps, evaluated abstractly (whatever their code shape)
+    _substitutions(run, tables)
+
+
+class _Stop(Exception):
+
+    def __init__(self, value):
+        self.value = value
+
+
+class _Point:
+
+    def __init__(self, coords: list):
+        self.coords = list(coords)
+
+
+class _Field:
+
+    def __init__(self, system: Sys, expr: T):
+        self.system = system
+        self.expr = expr
+
+
+def scalars_of(sysv: Sys) -> list:
+    return [var(f"{sysv.ident}_s{k}") for k in range(3)]
+
+
+class SubsReader(PyReader):
+    """pyreader + the objects the substitution steps touch: coordinate systems (base scalars, transformation table as read for
+    T1), points (coordinate accessor semantics of core/points/point.py: 0 beyond the given coordinates), fields. Evaluation
+    stops where the value leaves the repository's own code (sympy.vector.express / to_sympy_vector): the value handed over is
+    what is judged."""
+
+    def __init__(self, module, where, tables):
+        super().__init__(module, where)
+        self.tables = tables
+        self.directions: list = []
+
+    def hook_attr(self, base, attr, n):
+        if isinstance(base, Sys) and attr in ("coord_system", "_coord_system"):
+            return ("coordsys", base)
+        if isinstance(base, _Point) and attr in ("coordinates", "_coordinates"):
+            return list(base.coords)
+        if isinstance(base, _Field) and attr in ("coordinate_system", "_coordinate_system"):
+            return base.system
+        return NotImplemented
+
+    def hook_method(self, base, attr, args, kwargs, n):
+        if isinstance(base, tuple) and base and base[0] == "coordsys" and attr == "base_scalars" and not args:
+            return scalars_of(base[1])
+        if isinstance(base, _Point) and attr == "coordinate" and len(args) == 1 and isinstance(args[0], int):
+            return base.coords[args[0]] if 0 <= args[0] < len(base.coords) else 0
+        if isinstance(base, Sys) and attr == "transformation_to_system" and len(args) == 1 and isinstance(args[0], tuple) and args[0][0] == "kind":
+            self.directions.append((base.ident, args[0][1]))
+            key = (base.kind, args[0][1])
+            if key not in self.tables:
+                raise Raised("ValueError", getattr(n, "lineno", 0))
+            sc = scalars_of(base)
+            return [substitute(t, {f"q{k}": sc[k] for k in range(3)}) for t in self.tables[key]]
+        if isinstance(base, _Field) and attr == "apply_to_basis" and not args:
+            return base.expr
+        if isinstance(base, VVal) and attr == "to_sympy_vector":
+            raise _Stop(("vector", base))
+        return NotImplemented
+
+    def hook_call(self, n, env, fns):
+        f = dotted(n.func) or ""
+        if f == "isinstance" and len(n.args) == 2 and dotted(n.args[1]) == "Expr":
+            return isinstance(self.ev(n.args[0], env, fns), (T, int))
+        if f == "express" and n.args:
+            raise _Stop(("expr", self.ev(n.args[0], env, fns)))
+        return NotImplemented
+
+
+def _methods_module(mod, cls_name: str) -> ast.Module:
+    cls = next((c for c in mod.tree.body if isinstance(c, ast.ClassDef) and c.name == cls_name), None)
+    if cls is None:
+        raise AnalysisError(f"C11: class {cls_name} not found in {mod.name}")
+    return ast.Module(body=[x for x in mod.tree.body if not isinstance(x, ast.ClassDef)] + [x for x in cls.body if isinstance(x, ast.FunctionDef)], type_ignores=[])
+
+
+def _generic_expr(sc: list, tag: str) -> T:
+    """a*s0 + b*s1^2 + c*s2^3 + d*s0*s1*s2 : every base scalar occurs, no symmetry between them"""
+    a, b, c, d = (var(f"{tag}{k}") for k in "abcd")
+    return op("add", op("add", op("mul", a, sc[0]), op("mul", b, op("mul", sc[1], sc[1]))),
+              op("add", op("mul", c, op("mul", sc[2], op("mul", sc[2], sc[2]))), op("mul", d, op("mul", sc[0], op("mul", sc[1], sc[2])))))
+
+
+def _substitutions(run: Run, tables: dict) -> None:
+    SF, VF, VM = "symplyphysics.core.fields.scalar_field", "symplyphysics.core.fields.vector_field", "symplyphysics.core.vectors.vectors"
+    cs = Sys("P", "CARTESIAN")
+    sc = scalars_of(cs)
+    # ---- T7 / T8: a field built from an expression, evaluated at a point
+    for modname, vector in ((SF, False), (VF, True)):
+        m = run.src.need(modname)
+        for npt in range(4):
+            for selfref in (False, True):
+                rid = "T8" if selfref else "T7"
+                # coordinates: generic values; in the self-referential variant they mention the system's own base scalars (a trajectory such as [y, x + 5])
+                coords = [sc[(i + 1) % 3] if selfref else var(f"g{i}") for i in range(npt)]
+                full = coords + [num(0)] * (3 - npt)
+                exprs = [_generic_expr(sc, f"e{j}") for j in range(3 if vector else 1)]
+                R = SubsReader(m.tree, modname.rsplit(".", 1)[1] + ".py", tables)
+                run.ob(rid, f"{modname.rsplit('.', 1)[1]}:_subs_with_point[{npt} coordinates]")
+                try:
+                    got = R.call("_subs_with_point", [exprs if vector else exprs[0], cs, _Point(coords)])
+                except Raised as r:
+                    got = r
+                want = [substitute(e, {sc[k].val: full[k] for k in range(3)}) for e in exprs]
+                gl = got if vector else [got]
+                ok = not isinstance(got, Raised) and isinstance(gl, list) and len(gl) == len(want) and all(isinstance(x, (T, int)) and same_terms(x, y) for x, y in zip(gl, want)) \
+                    and not R.hazards
+                if not ok:
+                    if selfref:
+                        why = ("the base scalars are replaced one after another, so a coordinate that mentions a base scalar of the same system (a trajectory such as [y, x + 5]) "
+                               "is substituted again" + (f" ({R.hazards[0][1]})" if R.hazards else ""))
+                    else:
+                        why = "a base scalar is left in place or replaced by the wrong coordinate (a missing coordinate counts as 0)"
+                    run.violate(rid, f"{modname}:_subs_with_point:{npt}", m, m.tree,
+                                f"evaluating an expression-backed {'vector' if vector else 'scalar'} field at a point with {npt} coordinates is not the simultaneous replacement of "
+                                f"all three base scalars by the point's coordinates: {why}; got {('raises ' + got.exc) if isinstance(got, Raised) else repr(gl)[:160]}")
+                    break
+    # ---- T5: Vector.rebase hands sympy a vector whose components are the transformation applied to its own components
+    vm = run.src.need(VM)
+    vmod = _methods_module(vm, "Vector")
+    for frm, to in (("CARTESIAN", "CYLINDRICAL"), ("CARTESIAN", "SPHERICAL"), ("CYLINDRICAL", "CARTESIAN"), ("SPHERICAL", "CARTESIAN"), ("CARTESIAN", "CARTESIAN")):
+        if (frm, to) not in tables:
+            continue
+        old, new = Sys("O", frm), Sys("N", to)
+        so = scalars_of(old)
+        for ncomp in range(4):
+            for selfref in (False, True):
+                comps = [so[(i + 1) % 3] if selfref else var(f"c{i}") for i in range(ncomp)]
+                full = comps + [num(0)] * (3 - ncomp)
+                R = SubsReader(vmod, "vectors.py", tables)
+                run.ob("T5", f"Vector.rebase:{frm}->{to}[{ncomp}{' self-referential' if selfref else ''}]")
+                try:
+                    R.call("rebase", [VVal(list(comps), old), new])
+                    got = None
+                except _Stop as st:
+                    got = st.value
+                except Raised as r:
+                    got = r
+                if frm == to:
+                    want = list(comps)
+                else:
+                    want = [substitute(t, {f"q{k}": full[k] for k in range(3)}) for t in tables[(frm, to)]]
+                ok = isinstance(got, tuple) and got[0] == "vector" and got[1].system == old and len(got[1].components) == len(want) \
+                    and all(_same_component(x, y, to, k) for k, (x, y) in enumerate(zip(got[1].components, want))) and not R.hazards \
+                    and (frm == to or R.directions == [("O", to)])
+                if not ok:
+                    run.violate("T5", f"{VM}:Vector.rebase:{frm}->{to}:{'sequential' if selfref else 'mapping'}", vm, vm.tree,
+                                f"Vector.rebase {frm.lower()} -> {to.lower()} with {ncomp} component(s): the vector handed to sympy.vector.express is not the {frm.lower()}->{to.lower()} "
+                                f"transformation with every base scalar replaced (at once) by the matching component, 0 for a missing one"
+                                + (" - components that mention base scalars are substituted again" if selfref else "")
+                                + f"; got {('raises ' + got.exc) if isinstance(got, Raised) else (repr(got[1].components)[:160] if isinstance(got, tuple) else got)}; "
+                                  f"table requested: {R.directions}")
+                    break
+    # ---- T5: ScalarField.rebase hands sympy the field expression with the OLD scalars expressed in the NEW ones (the reverse direction)
+    fm = run.src.need(SF)
+    fmod = _methods_module(fm, "ScalarField")
+    for frm, to in (("CARTESIAN", "CYLINDRICAL"), ("CARTESIAN", "SPHERICAL"), ("CYLINDRICAL", "CARTESIAN"), ("SPHERICAL", "CARTESIAN"), ("CARTESIAN", "CARTESIAN")):
+        if (to, frm) not in tables:
+            continue
+        old, new = Sys("O", frm), Sys("N", to)
+        so, sn = scalars_of(old), scalars_of(new)
+        E = _generic_expr(so, "f")
+        R = SubsReader(fmod, "scalar_field.py", tables)
+        run.ob("T5", f"ScalarField.rebase:{frm}->{to}")
+        try:
+            R.call("rebase", [_Field(old, E), new])
+            got = None
+        except _Stop as st:
+            got = st.value
+        except Raised as r:
+            got = r
+        if frm == to:
+            want = E
+        else:
+            inv = [substitute(t, {f"q{k}": sn[k] for k in range(3)}) for t in tables[(to, frm)]]
+            want = substitute(E, {so[k].val: inv[k] for k in range(3)})
+        ok = isinstance(got, tuple) and got[0] == "expr" and isinstance(got[1], (T, int)) and same_terms(got[1], want) and not R.hazards and (frm == to or R.directions == [("N", frm)])
         if not ok:
-            run.violate("T5", f"{modname}:{path}:all-scalars", f.mod, f.fn, f"{path} does not substitute every base scalar of the source system (loop over all base_scalars() with an unconditional .subs)")
-    # ---- T7
-    sp = Fn(w, "symplyphysics.core.fields.scalar_field", "_subs_with_point")
-    run.ob("T7", "_subs_with_point")
-    ok = False
-    for lp in [n for n in sp.cfg.stmt_nodes() if n.kind == "for"]:
-        sl = sp.slice(lp, lp.ast.iter)
-        if any(c.endswith("base_scalars") for c in sl.calls) and not has_subscript([lp.ast.iter]) and "zip" not in sl.calls:
-            subs = [c for s_ in lp.ast.body for c in ast.walk(s_) if isinstance(c, ast.Call) and isinstance(c.func, ast.Attribute) and c.func.attr == "subs" and len(c.args) == 2]
-            for c in subs:
-                v = c.args[1]
-                if isinstance(v, ast.Call) and isinstance(v.func, ast.Attribute) and v.func.attr == "coordinate" and dotted(v.func.value) == "point_":
-                    ok = True
-    if not ok:
-        run.violate("T7", "symplyphysics.core.fields.scalar_field:_subs_with_point", sp.mod, sp.fn,
-                    "_subs_with_point no longer replaces every base scalar by point_.coordinate(i) (the accessor that yields 0 for a missing coordinate): a field built from an "
-                    "expression then keeps base scalars of missing coordinates, so the re-expressed field and the original disagree at points given with fewer coordinates")
+            run.violate("T5", f"{SF}:ScalarField.rebase:{frm}->{to}", fm, fm.tree,
+                        f"ScalarField.rebase {frm.lower()} -> {to.lower()}: the expression handed to sympy.vector.express is not the field with each old base scalar replaced by its "
+                        f"expression in the new system's scalars (table requested: {R.directions}, expected [('N', '{frm}')])")
+
+
+def _same_component(x, y, kind: str, k: int) -> bool:
+    if not isinstance(x, (T, int)):
+        return False
+    if k in ANGLE_SLOTS.get(kind, ()):
+        try:
+            return same_terms(op("sin", x), op("sin", y)) and same_terms(op("cos", x), op("cos", y))
+        except ZeroDivisionError:
+            # the angle of the zero vector (atan2(0, 0), acos(0/0)): compare the arguments instead of the undefined value
+            if isinstance(x, T) and isinstance(y, T) and x.op == y.op and len(x.args) == len(y.args) and x.op in ("atan2", "acos", "asin"):
+                return all(_same_component(a, b, kind, -1) for a, b in zip(x.args, y.args))
+            return False
+    try:
+        return same_terms(x, y)
+    except ZeroDivisionError:
+        if isinstance(x, T) and isinstance(y, T) and x.op == y.op and len(x.args) == len(y.args) and x.args:
+            return all(_same_component(a, b, kind, -1) for a, b in zip(x.args, y.args))
+        return repr(x) == repr(y)
